@@ -257,6 +257,30 @@ PROPS["C03"] = {
     ],
 }
 
+PROPS["C01"] = {
+    "quick_secs": 16,
+    "thorough_secs": 420,
+    "min_evaluations": 100000,
+    "technique": "differential monitor against the host CPU: each generated encoding is executed natively for exactly one instruction in a ptrace-single-stepped child (harness/src/x86native.rs) and, from the same state, as falcon-lifted IL in the reference IL interpreter; registers, XMM, flags, scratch memory and next address compared",
+    "rule": "encoding templates for every mnemonic class the x86 lifter dispatches (ALU, test, mov, lea, inc/dec, neg/not/mul/imul/div/idiv, shifts, "
+            "rotates incl. through carry, shld/shrd, movzx/movsx/movsxd, setcc/cmovcc/jcc for all 16 conditions, jmp/call/ret/loop/jrcxz, push/pop/leave, "
+            "xchg/xadd/cmpxchg, bt/bts/btr/btc, bsf/bsr/bswap, cbw/cwd family, flag instructions, string instructions with rep/repe/repne, SSE moves, "
+            "logic and shuffles) x operand size 8/16/32/64/128 (0x66, REX.W) x register/memory/immediate forms x every ModRM/SIB addressing mode incl. "
+            "rip-relative, fs/gs overrides, high-byte registers, aliasing operands; corner-biased register, flag and memory contents; register values "
+            "solved so the memory operand lands in a 6 KiB scratch arena shared by both sides. 2/3 of the cases run in 64-bit mode; 32-bit mode cases "
+            "are lifted by translator::x86::X86 and run natively through the mode-equivalence map (same bytes with an address-size prefix; 0x40-0x4f "
+            "mapped to FF /0,/1). Non-trivial = the instruction changed a compared output; distinct = (mode, form, operand size, reg/mem).",
+    "level_text": "Sampled (encoding, state) pairs per instruction form against the processor itself; architecturally undefined flags and results are masked per the SDM; native faults (SIGSEGV/SIGILL/divide error) are counted and not judged.",
+    "level_note": "the host runs only 64-bit code: 32-bit-mode lifting is compared through equivalent 64-bit encodings, and forms without one "
+                  "(stack-width instructions push/pop/call/ret/leave, indirect jmp/call, absolute disp32 addressing) are skipped in 32-bit mode; trusts x86native.rs (ptrace), liftexec.rs, refinterp.rs, refeval.rs",
+    "assumptions": [
+        "PF and AF are not modelled by falcon and are not compared",
+        "flags and results the SDM leaves undefined (shift/rotate OF for counts other than 1, bsf/bsr on zero, mul/imul ZF/SF, 16-bit shld/shrd with count > 16, div flags) are masked",
+        "a native divide error (quotient overflow) against a value in the IL is not judged: the architecture defines no register outcome",
+        "32-bit mode: only encodings whose semantics equal a 64-bit-mode encoding of the same bytes (plus 0x67) are compared",
+    ],
+}
+
 PROPS["C02"] = {
     "quick_secs": 14,
     "thorough_secs": 300,
